@@ -109,6 +109,17 @@ func (c bigDecCase) build() decCase {
 		b = seqBytes(b, []byte("abcde"), 0, 0)
 		d.Src, size = b, 1+two31+c.A+5
 		d.HashOut, d.Spare, d.Fill = true, 64, 0
+	case "dictmatch-4GiB":
+		// a dictionary of 1000 bytes; 3 literals, then a match that starts 100 bytes before the end of the dictionary and is
+		// 2^32 + A bytes long (A < 100: the low 32 bits of the length are smaller than what the dictionary still holds), 12 closing
+		// literals; the destination really holds it (4 GiB and a little). Outputs compared by digest.
+		d.Dict = text(1000, 23)
+		shift := uint(32)
+		two32 := int(int64(1) << shift)
+		b := seqBytes(nil, []byte("xyz"), 3+100, two32+c.A)
+		b = seqBytes(b, text(12, 24), 0, 0)
+		d.Src, size = b, 3+two32+c.A+12
+		d.HashOut, d.Spare, d.Fill = true, 64, 0
 	case "dict-4GiB":
 		// a dictionary of 2^32 + A bytes (zeros, then 64 bytes of pattern at its end); 3 literals, a match inside the pattern,
 		// one straddling the end of the dictionary, 12 closing literals
@@ -210,7 +221,8 @@ func bigDecCases(prop string) []bigDecCase {
 			cs = append(cs, bigDecCase{Prop: prop, Shape: "dict-4GiB", A: a}, bigDecCase{Prop: prop, Shape: "dict-4GiB", A: a, DstLen: -5})
 		}
 		if thorough() {
-			cs = append(cs, bigDecCase{Prop: prop, Shape: "match-2GiB", A: 100}, bigDecCase{Prop: prop, Shape: "match-2GiB", A: 1 << 30})
+			cs = append(cs, bigDecCase{Prop: prop, Shape: "match-2GiB", A: 100}, bigDecCase{Prop: prop, Shape: "match-2GiB", A: 1 << 30},
+				bigDecCase{Prop: prop, Shape: "dictmatch-4GiB", A: 50})
 		}
 	}
 	for _, fromDict := range []int{16, 200, 255, 256, 257, 300, 1024, 1990} {
